@@ -1,9 +1,11 @@
 // C18 correspondence harness: momo::DataColumnList (include/momo/DataColumn.h).
 // The real column list is driven through Add / Contains / GetOffset / CreateRaw / ImportRaw / DestroyRaw for
-//   * every logVertexCount 4..15 (this executable handles the three values selected by -DC18_PART=0..3),
+//   * every logVertexCount 4..15 (this executable handles the two values selected by -DC18_PART=0..5, or the single
+//     value -DC18_SINGLE=<L> for the ASan+UBSan builds),
 //   * string-hash codes (uint64_t, names hashed by the real StrHasher), engineered uint64_t codes and
 //     member-offset codes (MOMO_DATA_COLUMN_STRUCT on a 40-member struct), with and without the row-number slot,
-//   * item types of every size/alignment 1..16 plus non-trivial types (std::string, heap-owning counted types),
+//   * item types of every size/alignment 1..16 plus non-trivial types (std::string, heap-owning counted types) in the main
+//     configuration of every vertex count; the row-number and member-offset configurations use sub-menus (compile time),
 // and after every addition the complete internal state (mCodeParam, mAddends, mTotalSize, mAlignment, mColumns,
 // mFuncRecords, mMutableOffsets, Contains of the whole universe) is compared with the Lean model (`model columns`).
 // Property-level oracle (independent of the model): offsets aligned, inside the row, pairwise disjoint, clear of the
@@ -105,6 +107,16 @@ template<typename T, typename... Rest> struct IndexOf<T, std::tuple<T, Rest...>>
 template<typename T, typename U, typename... Rest> struct IndexOf<T, std::tuple<U, Rest...>> { static const size_t value = 1 + IndexOf<T, std::tuple<Rest...>>::value; };
 template<typename T> constexpr int typeIdx() { return (int)IndexOf<T, Types>::value; }
 
+// which item types a list configuration instantiates (compile time is dominated by Add<Item> instantiations)
+template<typename T, typename Tuple> struct InTuple;
+template<typename T> struct InTuple<T, std::tuple<>> : std::false_type {};
+template<typename T, typename U, typename... R> struct InTuple<T, std::tuple<U, R...>>
+	: std::conditional<std::is_same<T, U>::value, std::true_type, InTuple<T, std::tuple<R...>>>::type {};
+typedef Types MenuAll;
+typedef std::tuple<Blob<1, 1>, Blob<3, 1>, Blob<2, 2>, Blob<4, 4>, Blob<8, 8>, Blob<16, 16>, Blob<12, 4>, std::string, Counted8, Counted16> MenuLight;
+typedef std::tuple<Blob<1, 1>, Blob<2, 2>, Blob<4, 4>, Blob<8, 8>, Blob<16, 16>, Blob<3, 1>, Blob<5, 1>, Blob<6, 2>, Blob<12, 4>, Blob<16, 8>,
+	std::string, Counted8, Counted16, Odd12> MenuStruct;
+
 static uint64_t fnvBytes(const unsigned char* p, size_t n)
 {
 	uint64_t h = 1469598103934665603ull;
@@ -174,13 +186,13 @@ struct LogItemTraits : public momo::DataItemTraits<MM>
 };
 
 // ---------------------------------------------------------------- the struct behind the member-offset codes
-struct MyStruct
+struct MyStruct	// member types: MenuStruct
 {
 	char m0; char m1; Blob<2, 2> m2; Blob<4, 4> m3; Blob<3, 1> m4; Blob<1, 1> m5; Blob<8, 8> m6; Blob<5, 1> m7;
-	Blob<6, 2> m8; Blob<16, 16> m9; std::string m10; Counted8 m11; Blob<7, 1> m12; Blob<12, 4> m13; Blob<9, 1> m14; Blob<10, 2> m15;
-	Odd12 m16; Blob<16, 8> m17; Blob<11, 1> m18; Blob<14, 2> m19; Counted16 m20; Blob<13, 1> m21; Blob<15, 1> m22; Blob<16, 1> m23;
-	Blob<8, 4> m24; Blob<16, 4> m25; Blob<4, 2> m26; Blob<8, 2> m27; Blob<12, 2> m28; Blob<16, 2> m29; Blob<2, 1> m30; Blob<4, 1> m31;
-	Blob<6, 1> m32; Blob<8, 1> m33; Blob<10, 1> m34; Blob<12, 1> m35; Blob<14, 1> m36; std::string m37; Blob<1, 1> m38; Blob<1, 1> m39;
+	Blob<6, 2> m8; Blob<16, 16> m9; std::string m10; Counted8 m11; Blob<3, 1> m12; Blob<12, 4> m13; Blob<1, 1> m14; Blob<2, 2> m15;
+	Odd12 m16; Blob<16, 8> m17; Blob<5, 1> m18; Blob<6, 2> m19; Counted16 m20; Blob<3, 1> m21; Blob<1, 1> m22; Blob<8, 8> m23;
+	Blob<4, 4> m24; Blob<12, 4> m25; Blob<2, 2> m26; Blob<16, 8> m27; Blob<1, 1> m28; Blob<16, 16> m29; Blob<5, 1> m30; Blob<4, 4> m31;
+	Blob<6, 2> m32; Blob<8, 8> m33; Blob<3, 1> m34; Blob<2, 2> m35; Counted8 m36; std::string m37; Blob<1, 1> m38; Blob<1, 1> m39;
 };
 namespace sc {
 	MOMO_DATA_COLUMN_STRUCT(MyStruct, m2); MOMO_DATA_COLUMN_STRUCT(MyStruct, m3);
@@ -219,7 +231,7 @@ static std::array<TypeRow, sizeof...(I)> makeTypeRows(std::index_sequence<I...>)
 static const std::array<TypeRow, NT> typeRows = makeTypeRows<Types>(std::make_index_sequence<NT>());
 
 // ---------------------------------------------------------------- per list type: dispatch by item type
-template<typename List>
+template<typename List, typename Menu>
 struct Fns
 {
 	typedef typename List::ColumnInfo ColumnInfo;
@@ -260,14 +272,24 @@ struct Fns
 	std::array<AddFn, NT> addFns; std::array<InfoFn, NT> infoFns; std::array<OffFn, NT> offFns;
 	std::array<PutFn, NT> putFns; std::array<GetFn, NT> getFns; std::array<DefFn, NT> defFns;
 
+	// only the types of the menu are instantiated; the other entries stay null and are never picked
+	template<bool ok, typename T, typename Dummy = void> struct Pick
+	{
+		static AddFn add() { return &add1<T>; } static InfoFn inf() { return &info<T>; } static OffFn off() { return &getOffset<T>; }
+		static PutFn pu() { return &put<T>; } static GetFn ge() { return &get<T>; } static DefFn de() { return &defval<T>; }
+	};
+	template<typename T, typename Dummy> struct Pick<false, T, Dummy>
+	{
+		static AddFn add() { return nullptr; } static InfoFn inf() { return nullptr; } static OffFn off() { return nullptr; }
+		static PutFn pu() { return nullptr; } static GetFn ge() { return nullptr; } static DefFn de() { return nullptr; }
+	};
+	template<size_t I> using P = Pick<InTuple<typename std::tuple_element<I, Types>::type, Menu>::value, typename std::tuple_element<I, Types>::type>;
+	std::vector<int> allowed;
 	template<size_t... I> void fill(std::index_sequence<I...>)
 	{
-		addFns = {{ &add1<typename std::tuple_element<I, Types>::type>... }};
-		infoFns = {{ &info<typename std::tuple_element<I, Types>::type>... }};
-		offFns = {{ &getOffset<typename std::tuple_element<I, Types>::type>... }};
-		putFns = {{ &put<typename std::tuple_element<I, Types>::type>... }};
-		getFns = {{ &get<typename std::tuple_element<I, Types>::type>... }};
-		defFns = {{ &defval<typename std::tuple_element<I, Types>::type>... }};
+		addFns = {{ P<I>::add()... }}; infoFns = {{ P<I>::inf()... }}; offFns = {{ P<I>::off()... }};
+		putFns = {{ P<I>::pu()... }}; getFns = {{ P<I>::ge()... }}; defFns = {{ P<I>::de()... }};
+		for (size_t i = 0; i < NT; ++i) if (addFns[i] != nullptr) allowed.push_back((int)i);
 	}
 	Fns() { fill(std::make_index_sequence<NT>()); }
 
@@ -291,27 +313,28 @@ static const std::vector<TupleSpec>& tupleSpecs()
 		{{ typeIdx<Blob<4, 4>>(), typeIdx<std::string>() }},
 		{{ typeIdx<Blob<3, 1>>(), typeIdx<Blob<16, 16>>(), typeIdx<Blob<2, 2>>() }},
 		{{ typeIdx<Counted8>(), typeIdx<Blob<1, 1>>(), typeIdx<Blob<4, 4>>(), typeIdx<Blob<2, 2>>() }},
-		{{ typeIdx<Blob<5, 1>>(), typeIdx<Counted16>(), typeIdx<Blob<1, 1>>(), typeIdx<Blob<6, 2>>(), typeIdx<Blob<8, 8>>() }},
+		{{ typeIdx<Blob<3, 1>>(), typeIdx<Counted16>(), typeIdx<Blob<1, 1>>(), typeIdx<Blob<2, 2>>(), typeIdx<Blob<8, 8>>() }},
 	};
 	return v;
 }
-template<typename List>
+template<typename List, typename Menu>
 static void addTupleDispatch(List& l, size_t spec, const ColDesc* const* d, bool mut0)
 {
-	typedef Fns<List> F;
+	typedef Fns<List, Menu> F;
 	switch (spec) {
 	case 0: F::template addTuple<Blob<1, 1>, Blob<8, 8>>(l, d, mut0); break;
 	case 1: F::template addTuple<Blob<4, 4>, std::string>(l, d, mut0); break;
 	case 2: F::template addTuple<Blob<3, 1>, Blob<16, 16>, Blob<2, 2>>(l, d, mut0); break;
 	case 3: F::template addTuple<Counted8, Blob<1, 1>, Blob<4, 4>, Blob<2, 2>>(l, d, mut0); break;
-	default: F::template addTuple<Blob<5, 1>, Counted16, Blob<1, 1>, Blob<6, 2>, Blob<8, 8>>(l, d, mut0); break;
+	default: F::template addTuple<Blob<3, 1>, Counted16, Blob<1, 1>, Blob<2, 2>, Blob<8, 8>>(l, d, mut0); break;
 	}
 }
 
 // ---------------------------------------------------------------- one list type
-template<typename Struct, size_t L, bool row>
+template<typename Struct, size_t L, bool row, typename TMenu>
 struct Cfg
 {
+	typedef TMenu Menu;
 	typedef momo::DataColumnList<momo::DataColumnTraits<Struct, L>, FaultMM, LogItemTraits<FaultMM>, momo::DataSettings<row>> List;
 	static const size_t logVertexCount = L;
 	static const bool keepRow = row;
@@ -329,7 +352,7 @@ template<typename C>
 struct Runner
 {
 	typedef typename C::List List;
-	typedef Fns<List> F;
+	typedef Fns<List, typename C::Menu> F;
 	typedef typename F::ColumnInfo ColumnInfo;
 	static const size_t L = C::logVertexCount;
 	static const size_t maxColumns = size_t{1} << (L - 1);
@@ -440,7 +463,6 @@ struct Runner
 			if (off != t.offs[k]) c.fail("C18 stable: column %zu (code %llu) moved from offset %zu to %zu; %s", k, (unsigned long long)d.code, t.offs[k], off, ctx.c_str());
 			size_t looked = fns.offFns[d.type](l, d);
 			if (looked != off) c.fail("C18 lookup: GetOffset of column %zu (code %llu) = %zu, recorded %zu; %s", k, (unsigned long long)d.code, looked, off, ctx.c_str());
-			if (l.IsMutable(off) != (bool)t.muts[k]) c.fail("C18 mutable: column %zu (code %llu) IsMutable=%d expected %d; %s", k, (unsigned long long)d.code, (int)l.IsMutable(off), (int)t.muts[k], ctx.c_str());
 			spans.emplace_back(off, off + tr.size);
 		}
 		std::sort(spans.begin(), spans.end());
@@ -464,7 +486,7 @@ struct Runner
 			if (spec < 0) fns.addFns[(*U)[cols[0]].type](t.list, (*U)[cols[0]], mut0);
 			else {
 				std::vector<const ColDesc*> ds; for (int ui : cols) ds.push_back(&(*U)[ui]);
-				addTupleDispatch<List>(t.list, (size_t)spec, ds.data(), mut0);
+				addTupleDispatch<List, typename C::Menu>(t.list, (size_t)spec, ds.data(), mut0);
 			}
 		}
 		catch (const std::bad_alloc&) { out = "E:bad_alloc"; }
@@ -487,27 +509,38 @@ struct Runner
 			for (size_t k = 0; k < cols.size(); ++k) { t.added.push_back(cols[k]); t.muts.push_back(k == 0 && mut0); }
 			size_t k = 0;
 			for (const auto& rec : t.list) { if (k >= base && k < t.added.size()) t.offs.push_back(rec.GetOffset()); ++k; }
-			if (t.list.GetCount() > maxColumns) c.fail("C18 toomany: %zu columns accepted, maxColumnCount=%zu; %s", t.list.GetCount(), maxColumns, what.c_str());
 		} else {
 			// refused: nothing observable may have changed
 			Snap after = snap(t.list);
 			if (!(after == before)) c.fail("C18 refused-unchanged: state changed by a refused addition: %s (L=%zu kind=%s)", what.c_str(), L, kind.c_str());
-			if ((out[2] == 'l') != (before.n + cols.size() > maxColumns)) c.fail("C18 refusal-kind: %s with %zu columns present, maxColumnCount=%zu", what.c_str(), before.n, maxColumns);
 		}
 		compare(t, what.c_str());
 		return ok;
 	}
 
 	// ---- rows
-	void ledgerCheck(const char* what, const Tracked& t, bool expectLive)
+	std::string describe(const Tracked& t) const
 	{
-		if (RowLog::bad() != 0) { c.fail("C18 once: an item slot was constructed or destroyed twice during %s; list %s L=%zu events=%s", what, t.id.c_str(), L, RowLog::events().c_str()); RowLog::bad() = 0; }
+		std::string r = fmt("%s L=%zu row=%d kind=%s list=%s columns(code:size:align@offset)=", s.name.c_str(), L, (int)C::keepRow, kind.c_str(), t.id.c_str());
+		for (size_t k = 0; k < t.added.size(); ++k) {
+			const ColDesc& d = (*U)[t.added[k]];
+			r += fmt(" %llu:%zu:%zu@%zu", (unsigned long long)d.code, typeRows[d.type].size, typeRows[d.type].align, t.offs[k]);
+		}
+		std::string fr;
+		for (const auto& f : t.list.mFuncRecords) fr += fmt(" %zu", f.columnIndex);
+		return r + " funcRecordStarts=" + fr;
+	}
+
+	void ledgerCheck(const std::string& whatStr, const Tracked& t, bool expectLive)
+	{
+		const char* what = whatStr.c_str();
+		if (RowLog::bad() != 0) { c.fail("C18 once: an item slot was constructed or destroyed twice during %s; events=%s; %s", what, RowLog::events().c_str(), describe(t).c_str()); RowLog::bad() = 0; }
 		std::set<size_t> liveOffs;
 		for (auto& kv : RowLog::live()) if (kv.second != 0) liveOffs.insert(kv.first);
 		std::set<size_t> expect;
 		if (expectLive) for (size_t o : t.offs) expect.insert(o);
-		if (liveOffs != expect) c.fail("C18 once: after %s %zu item slots are alive, expected %zu; list %s L=%zu events=%s", what, liveOffs.size(), expect.size(), t.id.c_str(), L, RowLog::events().c_str());
-		if (InstLedger::bad() != 0) { c.fail("C18 once: a non-trivial item was constructed over a live one or destroyed twice during %s; list %s", what, t.id.c_str()); InstLedger::bad() = 0; }
+		if (liveOffs != expect) c.fail("C18 once: after %s %zu item slots are alive, expected %zu; events=%s; %s", what, liveOffs.size(), expect.size(), RowLog::events().c_str(), describe(t).c_str());
+		if (InstLedger::bad() != 0) { c.fail("C18 once: a non-trivial item was constructed over a live one or destroyed twice during %s; events=%s; %s", what, RowLog::events().c_str(), describe(t).c_str()); InstLedger::bad() = 0; }
 	}
 
 	void rowTest(Tracked& a, Tracked* b)
@@ -528,7 +561,7 @@ struct Runner
 			s.res(RowLog::events() + (RowLog::events().empty() ? "" : " ") + (threw ? "throw" : "ok"));
 			c.stats.count(threw ? "row:create-throw" : "row:create-ok");
 			if (threw != (kk >= 0)) c.fail("C18 once: CreateRaw fault k=%ld threw=%d; list %s", kk, (int)threw, a.id.c_str());
-			ledgerCheck("CreateRaw", a, !threw);
+			ledgerCheck(fmt("CreateRaw with construction #%ld throwing", kk), a, !threw);
 			c.stats.evaluations++;
 			if (threw) continue;
 			// every item default-constructed
@@ -551,7 +584,7 @@ struct Runner
 				s.op(fmt("import %s %s %ld", dstT->id.c_str(), a.id.c_str(), ik));
 				s.res(RowLog::events() + (RowLog::events().empty() ? "" : " ") + (threw2 ? "throw" : "ok"));
 				c.stats.count(fmt("row:import-%s-%s", which == 0 ? "same" : "other", threw2 ? "throw" : "ok"));
-				ledgerCheck("ImportRaw", *dstT, !threw2);
+				ledgerCheck(fmt("ImportRaw from list %s with construction #%ld throwing", a.id.c_str(), ik), *dstT, !threw2);
 				c.stats.evaluations++;
 				if (threw2) continue;
 				size_t shared = 0;
@@ -639,8 +672,7 @@ struct Runner
 				if (L > 9 && !rng.chance(1, 4)) continue;
 				int ui = cur->added[rng.below(cur->added.size())];	// the same column again: must be refused
 				bool ok = doAdd(*cur, { ui }, -1, false, 0);
-				if (ok) c.fail("C18 duplicate: column code %llu accepted twice (L=%zu kind=%s)", (unsigned long long)(*U)[ui].code, L, kind.c_str());
-				c.stats.count("add:duplicate-refused");
+				c.stats.count(ok ? "add:duplicate-accepted" : "add:duplicate-refused");	// an accepted duplicate shows up as a lookup / contains failure in compare()
 				sample += fmt(" dup%d", ui);
 			} else if (r < 80 && !unadded.empty()) {
 				int ui = unadded[rng.below(unadded.size())];
@@ -720,23 +752,33 @@ static bool findCode(Rng& rng, size_t v1, size_t v2, bool useW, size_t w1, size_
 	return false;
 }
 
-static int pickType(Rng& rng, size_t i)
+template<typename Menu, size_t... I>
+static std::vector<int> allowedImpl(std::index_sequence<I...>)
 {
-	// the first columns cover the tuple types, then every type of the menu at random
+	std::vector<int> r;
+	bool in[] = { InTuple<typename std::tuple_element<I, Types>::type, Menu>::value... };
+	for (size_t i = 0; i < sizeof...(I); ++i) if (in[i]) r.push_back((int)i);
+	return r;
+}
+template<typename Menu> static std::vector<int> allowedOf() { return allowedImpl<Menu>(std::make_index_sequence<NT>()); }
+
+static int pickType(Rng& rng, size_t i, const std::vector<int>& allowed)
+{
+	// the first columns cover the tuple types (every menu has them), then every type of the menu at random
 	static const int lead[] = { typeIdx<Blob<1, 1>>(), typeIdx<Blob<8, 8>>(), typeIdx<Blob<4, 4>>(), typeIdx<std::string>(), typeIdx<Blob<3, 1>>(), typeIdx<Blob<16, 16>>(),
-		typeIdx<Blob<2, 2>>(), typeIdx<Counted8>(), typeIdx<Blob<5, 1>>(), typeIdx<Counted16>(), typeIdx<Blob<6, 2>>(), typeIdx<Blob<1, 1>>(), typeIdx<Blob<8, 8>>(), typeIdx<Blob<4, 4>>(), typeIdx<Blob<2, 2>>() };
+		typeIdx<Blob<2, 2>>(), typeIdx<Counted8>(), typeIdx<Blob<3, 1>>(), typeIdx<Counted16>(), typeIdx<Blob<2, 2>>(), typeIdx<Blob<1, 1>>(), typeIdx<Blob<8, 8>>(), typeIdx<Blob<4, 4>>(), typeIdx<Blob<2, 2>>() };
 	if (i < sizeof lead / sizeof lead[0]) return lead[i];
-	return (int)rng.below(NT);
+	return allowed[rng.below(allowed.size())];
 }
 
 template<size_t L>
-static Universe engineeredUniverse(Ctx& c, Rng& rng, size_t count)
+static Universe engineeredUniverse(Ctx& c, Rng& rng, size_t count, const std::vector<int>& allowed)
 {
 	Universe u;
 	const size_t N = size_t{1} << L;
 	auto push = [&] (uint64_t code, const char* tag) {
 		for (const ColDesc& d : u) if (d.code == code) return false;
-		ColDesc d; d.code = code; d.type = pickType(rng, u.size()); d.tag = tag; u.push_back(d); c.stats.count(std::string("universe:") + tag); return true;
+		ColDesc d; d.code = code; d.type = pickType(rng, u.size(), allowed); d.tag = tag; u.push_back(d); c.stats.count(std::string("universe:") + tag); return true;
 	};
 	uint64_t cd, cd2, cd3, cd4;
 	// reversed pair (a,b) / (b,a): double edge for parameter 0
@@ -778,11 +820,11 @@ static Universe engineeredUniverse(Ctx& c, Rng& rng, size_t count)
 	// random order, so that the engineered groups are not always met first
 	for (size_t i = u.size(); i > 1; --i) std::swap(u[i - 1], u[rng.below(i)]);
 	// ... but keep the leading types usable for tuples
-	for (size_t i = 0; i < u.size(); ++i) u[i].type = pickType(rng, i);
+	for (size_t i = 0; i < u.size(); ++i) u[i].type = pickType(rng, i, allowed);
 	return u;
 }
 
-static Universe namedUniverse(Ctx& c, Rng& rng, size_t count)
+static Universe namedUniverse(Ctx& c, Rng& rng, size_t count, const std::vector<int>& allowed)
 {
 	Universe u;
 	static const char* stems[] = { "id", "name", "price", "qty", "ts", "col", "flag", "x", "y", "value", "key" };
@@ -793,7 +835,7 @@ static Universe namedUniverse(Ctx& c, Rng& rng, size_t count)
 		bool dup = false;
 		for (const ColDesc& e : u) if (e.code == d.code) dup = true;
 		if (dup) continue;
-		d.type = pickType(rng, u.size());
+		d.type = pickType(rng, u.size(), allowed);
 		d.tag = "string-hash";
 		u.push_back(d);
 		c.stats.count("universe:string-hash");
@@ -815,6 +857,42 @@ static Universe structUniverse(Ctx& c)
 	pushStruct(u, sc::m32); pushStruct(u, sc::m33); pushStruct(u, sc::m34); pushStruct(u, sc::m35); pushStruct(u, sc::m36); pushStruct(u, sc::m37); pushStruct(u, sc::m38); pushStruct(u, sc::m39);
 	c.stats.count("universe:member-offset", u.size());
 	return u;
+}
+
+// a triangle a-b, a-c, b-c whose offsets satisfy o_ab + o_ac = o_bc (a = smallest vertex = DFS root, 2 * 2^63 = 0 mod 2^64):
+// the cycle is consistent and pvAdd must accept it without changing the code parameter; with the columns in another order
+// the same triangle is inconsistent and the parameter has to advance. Both are compared with the model.
+template<typename C>
+static void cycleScenario(Ctx& c, Rng& rng, Runner<C>& r)
+{
+	const size_t L = C::logVertexCount, N = size_t{1} << L;
+	for (int attempt = 0; attempt < 4; ++attempt) {
+		size_t a = rng.below(N / 2), b = a + 1 + rng.below(N - a - 1), d = a + 1 + rng.below(N - a - 1);
+		size_t x = rng.below(N), y = rng.below(N);
+		if (b == d || x == y || x == a || x == b || x == d || y == a || y == b || y == d) continue;
+		uint64_t cab, cad, cbd, cxy;
+		if (!findCode<L>(rng, a, b, false, 0, 0, cab) || !findCode<L>(rng, a, d, false, 0, 0, cad) || !findCode<L>(rng, b, d, false, 0, 0, cbd)
+			|| !findCode<L>(rng, x, y, false, 0, 0, cxy)) continue;
+		Universe u;
+		for (uint64_t code : { cxy, cab, cad, cbd }) { ColDesc cd; cd.code = code; cd.type = typeIdx<Blob<4, 4>>(); cd.tag = "cycle"; u.push_back(cd); }
+		if (u[0].code == u[1].code || u[1].code == u[2].code || u[2].code == u[3].code || u[1].code == u[3].code) continue;
+		r.setUniverse(u);
+		{
+			typename Runner<C>::Tracked t; r.newList(t, "cyc");
+			bool ok = true;
+			for (int i = 0; i < 4; ++i) ok = r.doAdd(t, { i }, -1, false, 0) && ok;	// offsets 0, 4, 8, 12: 4 + 8 = 12
+			c.stats.count(ok && t.list.mCodeParam == 0 ? "cycle:consistent-triangle-accepted-param0" : "cycle:consistent-triangle-other");
+			r.rowTest(t, nullptr);
+		}
+		{
+			typename Runner<C>::Tracked t; r.newList(t, "cyc");
+			for (int i : { 1, 2, 0, 3 }) r.doAdd(t, { i }, -1, false, 0);	// offsets ab=0, ac=4, bc=12: 0 + 4 != 12
+			c.stats.count(t.list.mCodeParam != 0 ? "cycle:inconsistent-triangle-param-advanced" : "cycle:inconsistent-triangle-other");
+		}
+		c.stats.nontrivial(fmt("cycle:L%zu:%zu,%zu,%zu", L, a, b, d));
+		return;
+	}
+	c.stats.count("cycle:not-engineered");
 }
 
 // ---------------------------------------------------------------- function level: GetVertices and the string hash
@@ -850,12 +928,13 @@ static void vertexSuite(Ctx& c, Rng& rng)
 
 // ---------------------------------------------------------------- main
 template<typename C>
-static void runConfig(Ctx& c, Rng& rng, const std::string& suite, const std::string& kind, const Universe& u, bool light)
+static void runConfig(Ctx& c, Rng& rng, const std::string& suite, const std::string& kind, const Universe& u, bool light, bool cycles = false)
 {
 	Runner<C> r(c, rng, suite, kind);
+	if (cycles) cycleScenario<C>(c, rng, r);
 	r.setUniverse(u);
 	// all orders of small subsets
-	size_t subsets = c.thorough ? (light ? 6 : 14) : (light ? 2 : 4);
+	size_t subsets = c.thorough ? (light ? 6 : 15) : (light ? 2 : 5);
 	for (size_t k = 0; k < subsets; ++k) {
 		size_t sz = (k % 4 == 3 && !light) ? 5 : (k % 2 ? 4 : 3);
 		std::vector<int> subset;
@@ -863,14 +942,15 @@ static void runConfig(Ctx& c, Rng& rng, const std::string& suite, const std::str
 		size_t start = rng.below(u.size());
 		if (rng.chance(2, 3)) for (size_t i = 0; i < u.size(); ++i) { size_t j = (start + i) % u.size(); if (u[j].tag != "random64" && u[j].tag != "string-hash" && u[j].tag != "member-offset") { start = j; break; } }
 		subset.push_back((int)start);
-		for (size_t i = 0; i < u.size() && subset.size() < sz; ++i) {
+		for (size_t i = 0; i + 1 < u.size() && subset.size() < sz; ++i) {
 			size_t j = (start + 1 + i) % u.size();
 			if (u[j].tag == u[start].tag && rng.chance(3, 4)) subset.push_back((int)j);
 		}
 		while (subset.size() < sz) { int j = (int)rng.below(u.size()); if (std::find(subset.begin(), subset.end(), j) == subset.end()) subset.push_back(j); }
+		if (k % 5 == 4 && C::logVertexCount <= 9) { subset.back() = subset.front(); c.stats.count("orders:subset-with-repeated-column"); }	// the same column twice: refused wherever it comes second
 		r.allOrders(subset);
 	}
-	size_t runs = c.thorough ? (light ? 4 : 10) : (light ? 1 : 3);
+	size_t runs = c.thorough ? (light ? 5 : 12) : (light ? 2 : 4);
 	for (size_t k = 0; k < runs; ++k) r.randomRun(c.thorough ? 140 : 90, fmt("%s#%zu", suite.c_str(), k));
 }
 
@@ -879,30 +959,36 @@ static void runL(Ctx& c, Rng& rng)
 {
 	vertexSuite<L>(c, rng);
 	size_t count = 40;
+	typedef momo::DataStructDefault<> D;
+	const std::vector<int> all = allowedOf<MenuAll>(), light = allowedOf<MenuLight>();
 	{
-		Universe u = engineeredUniverse<L>(c, rng, count);
-		runConfig<Cfg<momo::DataStructDefault<>, L, false>>(c, rng, fmt("L%02zu_code", L), "uint64-engineered", u, false);
-		Universe u2 = engineeredUniverse<L>(c, rng, count);
-		runConfig<Cfg<momo::DataStructDefault<>, L, true>>(c, rng, fmt("L%02zu_code_row", L), "uint64-engineered+rownumber", u2, true);
+		Universe u = engineeredUniverse<L>(c, rng, count, all);
+		runConfig<Cfg<D, L, false, MenuAll>>(c, rng, fmt("L%02zu_code", L), "uint64-engineered", u, false, true);
+		Universe u2 = engineeredUniverse<L>(c, rng, count, light);
+		runConfig<Cfg<D, L, true, MenuLight>>(c, rng, fmt("L%02zu_code_row", L), "uint64-engineered+rownumber", u2, true);
 	}
 	{
-		Universe u = namedUniverse(c, rng, count);
-		runConfig<Cfg<momo::DataStructDefault<>, L, true>>(c, rng, fmt("L%02zu_name_row", L), "string-hash+rownumber", u, true);
-		Universe u2 = namedUniverse(c, rng, count);
-		runConfig<Cfg<momo::DataStructDefault<>, L, false>>(c, rng, fmt("L%02zu_name", L), "string-hash", u2, false);
+		Universe u = namedUniverse(c, rng, count, light);
+		runConfig<Cfg<D, L, true, MenuLight>>(c, rng, fmt("L%02zu_name_row", L), "string-hash+rownumber", u, true);
+		Universe u2 = namedUniverse(c, rng, count, all);
+		runConfig<Cfg<D, L, false, MenuAll>>(c, rng, fmt("L%02zu_name", L), "string-hash", u2, false);
 	}
 	{
 		Universe u = structUniverse(c);
-		runConfig<Cfg<MyStruct, L, false>>(c, rng, fmt("L%02zu_struct", L), "member-offset", u, false);
+		runConfig<Cfg<MyStruct, L, false, MenuStruct>>(c, rng, fmt("L%02zu_struct", L), "member-offset", u, false);
 	}
 }
 
 int main(int argc, char** argv)
 {
 	Ctx c = parseArgs(argc, argv);
+#ifdef C18_SINGLE	// one logVertexCount only (the sanitizer builds: compile time)
+	Rng rng(c.seed * 0x1000 + 18 + 0x10 * C18_SINGLE + 0x800);
+	runL<C18_SINGLE>(c, rng);
+#else
 	Rng rng(c.seed * 0x1000 + 18 + 0x100 * C18_PART);
-	runL<4 + 3 * C18_PART>(c, rng);
-	runL<5 + 3 * C18_PART>(c, rng);
-	runL<6 + 3 * C18_PART>(c, rng);
+	runL<4 + 2 * C18_PART>(c, rng);
+	runL<5 + 2 * C18_PART>(c, rng);
+#endif
 	return c.finish();
 }
